@@ -60,6 +60,9 @@ def gen_crop(rng, profile):
         # "default program properties" of the Crop class (documented, changeable with expert knowledge): a few plausible values
         key = rng.choice(["LagAer", "LagAer", "Aer", "GermThr"])
         ov[key] = rng.choice({"LagAer": [2, 5, 8], "Aer": [2, 10, 15], "GermThr": [0.1, 0.4]}[key])
+    if "Determinant" in ov and CROP_INFO[name]["CropType"] != 3:
+        # determinacy is a property of flowering; leafy and root/tuber crops have no flowering period (Flowering = -999)
+        del ov["Determinant"]
     if not _p(profile, "allow_etadj0", True):
         ov.pop("ETadj", None)
     if CROP_INFO[name]["CalendarType"] == 1 and rng.random() < _p(profile, "switchgdd_p", 0.0):
